@@ -19,7 +19,7 @@ from typing import Any, Dict, List, Optional, Tuple
 from . import engine, valdrv
 from .probedefs import FLOAT_KINDS, INT_KINDS
 
-sys.path.insert(0, "/repo/src")
+sys.path.insert(0, __import__("os").environ.get("VF_REPO", "/repo") + "/src")
 
 TARGET = {"ToBytes": "bytes", "FromBytes": "obj", "ToDict": "dict", "FromDict": "obj", "ToJson": "json", "FromJson": "obj",
           "DictToJson": "json", "JsonToDict": "dict", "MsgToJson": "mjson", "MsgFromJson": "obj", "Copy": "obj", "MsgCopy": "obj",
